@@ -71,6 +71,14 @@ def run(ctx):
     R = flow.Runner(ctx)
     for c in cells:
         R.add(program(c))
+    # branches across REAL statements (instructions of every size class, data, ALIGNB) instead of RESB filler: seeded random programs
+    # of spec/Gen_Prog.tla; every label-target branch in them is judged against the real address of its target
+    import progs
+    nrand = 0
+    for bits in (16, 32):
+        for i, c in enumerate(progs.gen(ctx, 120 if quick else 1500, length=14 if quick else 20, nl=4, bits=bits, seed=ctx.seed + 40)):
+            R.add(progs.complete(c, org=[0x7c00, None, 0xc200][i % 3], bits=bits))
+            nrand += 1
     R.run()
     ver = ctx.validate("Trace_Asm", R.traces(), nproc=12)
     F = Findings()
@@ -85,8 +93,8 @@ def run(ctx):
         "programs_explained_by_known_findings": len({r["id"] for _, r in known}),
         "evaluations": len(R.cases), "distinct_nontrivial": ok,
         "rule": "TLC enumerates (32 jump mnemonics incl. CALL) x distances %s x forward/backward x with/without a label after the branch x label/numeric target x ORG %s x BITS 16/32, plus far JMP seg:off boundary values; "
-                "each cell is one program (NOP; branch; RESB d; target). non-trivial = assembled without diagnostic" % (
-                    "0..140 and 32755..32775" if not quick else str(dists), [hex(o) for o in orgs]),
+                "each cell is one program (NOP; branch; RESB d; target); plus %d seeded random programs (Gen_Prog.tla) whose branches cross real statements. non-trivial = assembled without diagnostic" % (
+                    "0..140 and 32755..32775" if not quick else str(dists), [hex(o) for o in orgs], nrand),
         "samples": [R.cases[i]["src"] for i in (0, len(R.cases) // 3, len(R.cases) - 1)],
         "model_checking": "MC_Asm: Inv_C04 (every branch chunk decodes to the named condition and lands on the real address of its target) holds in all %d states of all programs of length <= %d" % (mcst["distinct"], 4 if quick else 5),
         "symbolic_lemma": "BranchLemma.tla (Apalache, all 2^16 x 2^16 address pairs): a rel16 displacement holding the low 16 bits of target-(address+length) lands on the target modulo 2^16; a rel8 displacement lands whenever the distance fits a signed byte",
